@@ -346,10 +346,12 @@ impl<R: WorldRadio, const N: usize, const D: usize> Dut for AsyncDut<R, N, D> {
                 Ok(None) => break,
                 Err(e) => return e,
             }
+            // The application awaits rxc_listen() again after every result; the call made when nothing is left to
+            // deliver pends (and is dropped by the harness, above). Only a device without a session ends every call
+            // at once: there the loop stops when the script is exhausted.
             let e = env.borrow();
             let more = e.cursor[4] < e.listen_frames.len() || e.fault.is_some();
-            if !more {
-                // one more call would just pend; model the application dropping the future
+            if !more && matches!(results.last(), Some(OpResult::NotJoined) | Some(OpResult::RadioErr)) {
                 break;
             }
         }
